@@ -2406,6 +2406,22 @@ def drop_logging(func_node, loggers):
                 count[0] += 1
                 out.append(ast.copy_location(ast.Pass(), st))
                 continue
+            # `if logger.isEnabledFor(LEVEL): <only logging>` - the guard of a trace whose arguments are costly to build
+            if isinstance(st, ast.If) and not st.orelse and isinstance(st.test, ast.Call) and isinstance(st.test.func, ast.Attribute) \
+                    and st.test.func.attr == "isEnabledFor" and isinstance(st.test.func.value, ast.Name) and st.test.func.value.id in loggers:
+                def only_logging(x):
+                    if isinstance(x, ast.Pass):
+                        return True
+                    if isinstance(x, ast.Expr) and isinstance(x.value, ast.Call) and isinstance(x.value.func, ast.Attribute) \
+                            and x.value.func.attr in LEVELS and isinstance(x.value.func.value, ast.Name) and x.value.func.value.id in loggers:
+                        # inside the guard the arguments may compute (join over the filters ...) as long as they only read
+                        return not any(isinstance(n_, (ast.Await, ast.Yield, ast.YieldFrom, ast.NamedExpr)) for n_ in ast.walk(x)) and not any(
+                            isinstance(n_, ast.Call) and isinstance(n_.func, ast.Attribute) and n_.func.attr in MUTATORS for n_ in ast.walk(x))
+                    return False
+                if all(only_logging(x) for x in st.body):
+                    count[0] += 1
+                    out.append(ast.copy_location(ast.Pass(), st))
+                    continue
             out.append(st)
         return out
     func_node.body = block(func_node.body)
